@@ -19,7 +19,8 @@ import Log4rsModel.Roller.Model
           self.policy.process(&mut LogFile{writer, path, len})?;     -- an Err here: record on disk, append = Err
       }
       Ok(())
-  get_writer: if None { open(append(a), truncate(!a), create); len = a ? metadata.len : 0; BufWriter(1024) }
+  get_writer: if None { first = !opened.swap(true); a' = a || !first;      -- truncate only at the FIRST open
+                        open(append(a'), truncate(!a'), create); len = a' ? metadata.len : 0; BufWriter(1024) }
   CompoundPolicy::process: if trigger.trigger(log)? { log.roll() /* writer = None: drop flushes */; roller.roll(path)?; }
 
 The trigger is abstract: a state `σ`, `fire : σ → len → now → answer × σ` and the `isPreProcess`
@@ -56,8 +57,9 @@ def onStartupTrigger (minSize : Nat) : Trigger Bool :=
     reinit := fun _ _ => false }
 
 /-- `TimeTrigger` for the second / minute units (`unit` = 1 or 60 seconds), `max_random_delay = 0`,
-in a zone whose offset is a whole number of minutes. `get_next_time`: truncate to the unit, add
-`n` units (`modulate`: `n - field % n` units, field = second of minute / minute of hour). -/
+in a zone whose offset is a whole number of minutes. `get_next_time` (after the `fix:` commit
+80d997f): an interval below 1 counts as 1; truncate to the unit, add `n` units (`modulate`:
+`n - field % n` units, field = second of minute / minute of hour); always after `now`. -/
 structure TimeCfg where
   unit : Nat
   n : Nat
@@ -67,7 +69,8 @@ structure TimeCfg where
 def TimeCfg.next (c : TimeCfg) (now : Nat) : Nat :=
   let t := now / c.unit * c.unit
   let field := now / c.unit % 60
-  let inc := if c.modulate then c.n - field % c.n else c.n
+  let n := max c.n 1
+  let inc := if c.modulate then n - field % n else n
   t + inc * c.unit
 
 /-- state = `next_roll_time`; pre-process -/
@@ -100,6 +103,8 @@ structure St (σ : Type) where
   writer : Option Writer
   tst : σ
   now : Nat
+  /-- `RollingFileAppender::opened`: this appender has opened its file at least once -/
+  opened : Bool := false
 
 inductive Res where
   | ok
@@ -120,14 +125,15 @@ variable {σ : Type}
 /-- content of the active file (`[]` when it does not exist) -/
 def fileOf (cfg : Cfg σ) (d : Disk) : Bytes := (d.get? cfg.path).getD []
 
-/-- `get_writer` -/
+/-- `get_writer`: truncate mode discards the old content at the appender's first open only -/
 def getWriter (cfg : Cfg σ) (s : St σ) : St σ × Writer :=
   match s.writer with
   | some w => (s, w)
   | none =>
-    let content := if cfg.appendMode then fileOf cfg s.disk else []
-    let w : Writer := { buf := [], len := if cfg.appendMode then content.length else 0 }
-    ({ s with disk := s.disk.set cfg.path content, writer := some w }, w)
+    let am := cfg.appendMode || s.opened
+    let content := if am then fileOf cfg s.disk else []
+    let w : Writer := { buf := [], len := if am then content.length else 0 }
+    ({ s with disk := s.disk.set cfg.path content, writer := some w, opened := true }, w)
 
 /-- `encoder.encode(log_writer, record)`: `LogWriter` inherits the default `write_all` loop over
 `write`, each `write` adds the accepted byte count to `len` -/
@@ -184,7 +190,7 @@ def append (cfg : Cfg σ) (s : St σ) (r : Rec) (fault : Nat → Bool) : Out × 
 
 /-- `RollingFileAppenderBuilder::build` on the current disk: fresh trigger, file opened immediately -/
 def build (cfg : Cfg σ) (s : St σ) : St σ :=
-  (getWriter cfg { s with writer := none, tst := cfg.trig.reinit s.tst s.now }).1
+  (getWriter cfg { s with writer := none, tst := cfg.trig.reinit s.tst s.now, opened := false }).1
 
 /-- start of the first appender on a disk -/
 def init (cfg : Cfg σ) (d : Disk) (t0 : σ) (now : Nat) : St σ :=
